@@ -190,6 +190,38 @@ def gen_cases(fm, rng, tier, prop, stride=1):
     cases = []
     n = fm.size
     masks = [0x01, 0x80, 0xFF]
+    if stride == "huge":
+        # an entry store of more than 1 MiB: positions inside its data and its CRC; only the entries around the altered one are read
+        for pk in jbkdec.all_packs(fm.dec):
+            esz = {}
+            for es_ in pk.get("entryStores", []) or []:
+                esz = es_
+            for b in pk["blocks"]:
+                if b["kind"] != "EntryStoreData" or b["size"] < (1 << 20) or not esz:
+                    continue
+                npos = 40 if tier == "quick" else 600
+                step = max(1, b["size"] // npos)
+                for pos in list(range(b["begin"] + 3, b["begin"] + b["size"], step)) + [b["begin"], b["begin"] + b["size"] - 1, b["end"] - 1, b["end"] - 4]:
+                    parts, covered, cpacks = fm.classify([pos])
+                    i = min((pos - b["begin"]) // esz["entrySize"], esz["count"] - 1)
+                    cases.append({"damage": {"kind": "xor", "pos": pos, "mask": masks[pos % 3]}, "parts": parts, "covered": covered, "cpacks": cpacks,
+                                  "model": False, "trunc": 0, "entry_window": [max(0, i - 2), min(esz["count"], i + 3)]})
+        return cases
+    if stride == "bigc":
+        # compressed clusters of many decoding chunks: damage in the middle of the stream leaves a decoder that has
+        # published a part of the cluster and then fails (contents before the failure, across it and beyond it are read)
+        def addc(dmg, positions):
+            parts, covered, cpacks = fm.classify(positions)
+            cases.append({"damage": dmg, "parts": parts, "covered": covered, "cpacks": cpacks, "model": False, "trunc": 0})
+        step = max(1, n // (120 if tier == "quick" else 2000))
+        for pos in range(0, n, step):
+            addc({"kind": "xor", "pos": pos, "mask": masks[pos % 3]}, [pos])
+            if (pos // step) % 4 == 0:
+                addc({"kind": "zero", "pos": pos, "len": 32}, range(pos, min(pos + 32, n)))
+        if prop == "C06":
+            for t_ in range(0, n, max(1, n // (60 if tier == "quick" else 1000))):
+                addc({"kind": "trunc", "len": t_}, [])
+        return cases
     if stride == "big":
         def addb(dmg, positions):
             parts, covered, cpacks = fm.classify(positions)
@@ -231,7 +263,19 @@ def gen_cases(fm, rng, tier, prop, stride=1):
 
 
 def make_world(binary, base, rng, idx, comp, concat, n_extras, tier, big=False):
-    if big:
+    if big == "huge":
+        # an entry store of more than 1 MiB (90 000 entries of 13 bytes and more)
+        scn = L.make_container(rng, 500 + idx, n_entries=90000, n_extras=n_extras, comp=comp, concat=concat, sizes=[0, 1, 2])
+        for j, e in enumerate(scn["dirpack"]["entries"]):
+            if "extra" in e["values"]:
+                e["values"]["extra"] = {"a": list(b"-> entry-%04d" % (j % 1000))}     # (an indexed store holds about 21 800 values at most)
+    elif big == "bigc":
+        scn = L.make_container(rng, 500 + idx, n_entries=7, n_extras=n_extras, comp=comp, concat=concat, sizes=[5000, 70000, 150000, 300000])
+        for o in scn["ops"]:
+            if o["cls"] == "rand":
+                o["cls"] = "low"        # everything compressible: one or two compressed clusters of hundreds of KiB
+            o["hint"] = "yes"
+    elif big:
         # blocks of >= 4 KiB (content infos of 2500 contents, cluster tails of thousands of blobs, entry store data)
         scn = L.make_container(rng, 500 + idx, n_entries=2500, n_extras=n_extras, comp=comp, concat=concat, sizes=[0, 1, 3, 7, 20])
     else:
@@ -261,22 +305,28 @@ def run(prop, tier):
     shutil.rmtree(base, ignore_errors=True)
     os.makedirs(base)
     if tier == "quick":
-        worlds = [("zstd", "one", 0, 1), ("none", "two", 1, 5)] if prop != "C06" else [("zstd", "one", 0, 1), ("lz4", "one", 0, 5), ("lzma", "two", 1, 5), ("none", "none", 1, 5)]
+        worlds = [("zstd", "one", 0, 1), ("none", "two", 1, 5)] if prop != "C06" else [("zstd", "one", 0, 1), ("lz4", "one", 0, 5), ("lzma", "two", 1, 5), ("none", "none", 1, 5), ("lzma", "one", 0, "bigc")]
         worlds.append(("none", "one", 0, "big"))
         if prop in ("C04", "C05"):
             worlds.append(("none", "two", 2, 1, "extra0.jbkc"))     # a pack is unavailable; the packs listed after it are still checked
+        if prop == "C05":
+            worlds.append(("none", "one", 0, "huge"))
     else:
         worlds = [(c, m, x, 1) for c in ("none", "lz4", "lzma", "zstd") for m, x in (("one", 0), ("two", 1), ("none", 2))]
         worlds += [("none", "one", 0, "big"), ("zstd", "two", 1, "big")]
         if prop in ("C04", "C05"):
             worlds += [("none", "two", 2, 1, "extra0.jbkc"), ("zstd", "none", 2, 1, "extra0.jbkc")]
+        if prop in ("C05", "C06"):
+            worlds.append(("none", "one", 0, "huge"))
+        if prop == "C06":
+            worlds += [("lzma", "one", 0, "bigc"), ("zstd", "one", 0, "bigc"), ("lz4", "two", 1, "bigc")]
     events, nontrivial, total = [], set(), 0
     case_index = {}
     confirmed_bad = 0       # crashes / hangs confirmed alone: after a few of them the verdict is reached and the sweep stops
     for wi, wd in enumerate(worlds):
         comp, concat, nex, stride = wd[:4]
         removed = wd[4] if len(wd) > 4 else None
-        scn, d = make_world(binaries["debug"], base, rng, wi, comp, concat, nex, tier, big=(stride == "big"))
+        scn, d = make_world(binaries["debug"], base, rng, wi, comp, concat, nex, tier, big=(stride if stride in ("huge", "bigc") else stride == "big"))
         entry = os.path.join(d, scn["out"])
         removed_id = None
         if removed:
@@ -341,6 +391,9 @@ def run(prop, tier):
                     cc = dict(c_, id=sid, profile=profile, world=(comp, concat, fn))
                     case_index[sid] = cc
                     sc = dict(req, id=sid, damage=c_["damage"])
+                    if c_.get("entry_window"):
+                        sc["entry_window"] = c_["entry_window"]
+                        sc["max_content"] = 20
                     if prop == "C06" and comp != "none" and any(p[0] == "c.data" for p in c_["parts"]):
                         sc["threads"] = 6       # several readers waiting on the same failing decoder
                     if prop == "C06":
